@@ -410,6 +410,13 @@ def check(dr, ev, report, final=False):
                 report('C20/unit-believed-executing-but-nowhere',
                        f'{tag}[{t}] is in doing after {ev} but no such unit is queued or with a worker: '
                        f'its periodic event cannot fire again')
+    # an entry of the work queue has work: a node queued with nothing pending
+    # or executing never leaves, and defer() treats its algorithm as busy for ever
+    for n in dr.sched.que:
+        if not (n.get('todo') or n.get('doing') or n.get('do')):
+            report('C20/queue-entry-with-nothing-to-do',
+                   f'{n.tag} sits in the work queue after {ev} with empty todo / doing '
+                   f'({[m.tag for m in dr.sched.que].count(n.tag)} entries for it)')
     # what a firing queues
     for tag, at, todo in dr.firings:
         kind = dr.eng.kind(tag)
